@@ -63,6 +63,18 @@ prop('C03', level='proof', modules=['Polyseed.Props.C03'], suites=['pack'],
      note=PROOF_NOTE + 'Modelled, not verified: gf.c, polyseed_encode. Spec (Model/Spec.lean) is written from README.md; "an independent implementation" is represented by Spec plus vlib/spec.py.',
      technique='Lean 4 proof (symbolic unrolling of the packing loops + omega; spec written from the README) + correspondence on packing and encode',
      assumptions=['canonical seed (proved invariant, C13)'])
+prop('C13', level='proof', modules=['Polyseed.Props.C13'], suites=[],
+     api=dict(cone=None, sessions=10),
+     text='Theorems inv_step / inv_run / inv_run_init (every seed the library holds after ANY finite history is canonical - 150 bits, zero padding, consistent check value - for all oracles, junk and allocation failures; induction over the history), concr_abs / canon_determined (a canonical seed IS its abstract value (secret, birthday, features): equal abstract values give identical seeds), store_abs / encode_abs / keygen_abs / queries_abs (every observable output is a function of the abstract value written with Spec.* only), frame (a call never changes a seed other than its argument), plus createData_canon, polyToData_canon, decodeFinish_inv. With C06.load_store and C01.decodeExplicit_encode this gives "storing, loading, encoding and decoding a handed-out seed always succeed". S-api: random histories over up to 16 live seeds with outputs fed back exact and mutated; every op is compared with the model; every seed handed out is dumped and checked canonical.',
+     note=PROOF_NOTE + 'The abstract model is realised as the canonical-representation theorem plus per-observation equations rather than a second transition system. Calls with dead handles are undefined behaviour in C and outside the model (badHandle).',
+     technique='Lean 4 proof (invariant by induction over histories + canonical-representation refinement + frame) + API-history correspondence',
+     assumptions=['oracles return bytes (OraclesOK); coin < 2048; load buffers are 32 bytes; handles passed are live'])
+prop('C15', level='proof', modules=['Polyseed.Props.C15'], suites=[],
+     api=dict(cone=None, weights=dict(faults=6, unsupported=3, storage=2, roundtrip=2, badtokens=1, garbage=1), sessions=5), extra='extra_faults',
+     text='Theorems step_ledger / run_ledger / run_ledger_init (for EVERY history, oracle and schedule of allocation failures the ledger computed from the event trace is defined - no double free, no foreign free, no live block handed out twice - and equals the set of seeds the library holds: nothing leaks), failed_call_balanced (a failing call returns every block it took), alloc_failure_create/load/decode (memory status, no seed, no further block access), free_events (freeing NULL does nothing; a seed is wiped through the injected wipe then freed exactly once), junk independence. Fault enumeration on the real code: a history reaching every outcome class is run for every subset of failing allocation requests, diffed against the model, with the harness allocator checking the ledger itself (guard pages, unmapped-on-free, zeroed-at-free).',
+     note=PROOF_NOTE + 'Malloc contract (a block handed out is not live; ids unique) is the hypothesis Inv.',
+     technique='Lean 4 proof (ledger invariant by induction over histories, all fault schedules) + exhaustive fault enumeration over a fixed history',
+     assumptions=['malloc contract; handles passed to the library are live'])
 prop('C17', level='proof', modules=['Polyseed.Props.C17'], suites=[],
      api=dict(cone=['encode'], weights=dict(roundtrip=6, variants=1), sessions=3), extra='extra_c17',
      text='Theorems maxPhrase_lt_all (for every registered language 16*longest word + 15*separator < POLYSEED_STR_SIZE: kernel-evaluated on the tables and the constant of the CURRENT tree), encodeTmp_length_le (every phrase, all seeds and coins, is at most that long), encode_no_overflow (the str_tmp overflow outcome of the model is unreachable), encode_output_fits (returned size = length of the output < buffer size), lazyNfkd_no_truncation. The extremal witness seed of every language is encoded on the real code under ASan with the caller buffer against a guard page, and decoded back.',
@@ -404,6 +416,70 @@ def extra_sign(ctx, pid, viol, stats):
     st['hist']['ops differing between the builds'] = n
     if a:
         st['samples'].append(a[len(a) // 2].block()[:4])
+    st['wall'] = time.time() - t0
+
+
+def extra_faults(ctx, pid, viol, stats):
+    """C15 fault enumeration: a fixed history that reaches every outcome class of every constructor, run once for EVERY
+    subset of failing allocation requests; each run is diffed against the model and the harness's own ledger is checked."""
+    import re
+    t0 = time.time()
+    st = stats.setdefault('faults', dict(evaluations=0, distinct=set(), samples=[], variants=['asan'], wall=0.0, exhaustive=True, mismatches=0, hist={},
+                                         note='history with 9 allocation requests (create ok/unsupported, decode ok/wrong-coin/unsupported/garbage, explicit decode, load ok/format/checksum/unsupported): all 2^k subsets of failing requests (k capped in the quick tier)'))
+    Ls = ctx.langs
+    rnd = ctx.rnd('faults')
+    sec = [rnd.randrange(256) for _ in range(18)] + [rnd.randrange(64)]
+    b = rnd.randrange(1024)
+    li = rnd.randrange(Ls.n)
+    coin = rnd.randrange(2048)
+    ph = Ls.phrase(li, spec.poly(sec, b, 0, coin)).hex()
+    ph_f = Ls.phrase(li, spec.poly(sec, b, 2, coin)).hex()         # feature bit 1: unsupported under mask 1
+    buf = spec.storage(sec, b, 1)
+    buf_f = spec.storage(sec, b, 4)
+    bad_chk = bytearray(buf); bad_chk[30] ^= 1
+    bad_fmt = bytearray(buf); bad_fmt[0] ^= 1
+    # (needs_alloc, line): constructors in the order they are called
+    points = ['create 0 1', 'decode 1 %d %s' % (coin, ph), 'decodex 2 %d %d %s' % (coin, li, ph), 'decode 3 %d %s' % (coin, ph_f),
+              'load 4 ' + buf.hex(), 'load 5 ' + buf_f.hex(), 'load 6 ' + bytes(bad_chk).hex(), 'load 7 ' + bytes(bad_fmt).hex(), 'create 8 0']
+    k = len(points) if ctx.thorough else 6
+    total = 0
+    for mask in range(1 << k):
+        script = [suites.INJECT, 'features 1', 'create 9 2', 'decode 10 %d %s' % ((coin + 1) % 2048, ph), 'decode 11 0 ' + b'xxx xxx'.hex()]
+        for i, line in enumerate(points):
+            if i < k and (mask >> i) & 1:
+                script.append('!failalloc 0')
+            script.append(line)
+            script.append('!failalloc -1')
+        script += ['store 0', 'encode 1 %d %d' % (li, coin), 'crypt 2 70617373', 'keygen 4 0 32']
+        script += ['free %d' % i for i in range(12)] + ['free null']
+        res = core.run_pair(ctx.tree, 'asan', script, 'faults')
+        total += 1
+        st['evaluations'] += res.ops
+        for op in res.c_ops:
+            st['distinct'].add(op.head + '|' + (op.result or ''))
+        end = [h for h in res.header if h.startswith('# end')]
+        live = re.search(r'live=(\d+)', end[0]).group(1) if end else '?'
+        if res.crash:
+            viol.append(Violation('crash', 'crash:faults', 'failing allocations %s: the real code crashed: %s' % (bin(mask), res.crash[:1000]), script=script, suite='faults', variant='asan', found_input=True))
+        elif live != '0':
+            viol.append(Violation('oracle', 'leak', 'failing allocations %s: %s block(s) taken from the injected allocator were never returned although every seed was freed' % (bin(mask), live),
+                                  script=script, suite='faults', variant='asan', found_input=True))
+        for (i, head, text) in res.complaints:
+            viol.append(Violation('oracle', 'harness:' + text.split()[1], 'failing allocations %s: harness observed at "%s": %s' % (bin(mask), head[:80], text), script=script, suite='faults', variant='asan', found_input=True))
+        for op in res.c_ops:
+            if any('foreign' in e for e in op.events):
+                viol.append(Violation('oracle', 'foreign-free', 'failing allocations %s: "%s" passed a pointer to the injected free that is not a live block: %s' % (bin(mask), op.head[:80], op.events),
+                                      script=script, suite='faults', variant='asan', found_input=True))
+            failing = any('ret=null' in e for e in op.events)
+            if failing and op.kv('st') != '6':
+                viol.append(Violation('oracle', 'alloc-fail-status', 'allocation failed during "%s" but the call returned status %s, not the memory status' % (op.head[:80], op.kv('st')),
+                                      script=script, suite='faults', variant='asan', found_input=True))
+        for (i, cb, mb) in res.mismatches[:2]:
+            st['mismatches'] += 1
+            viol.append(Violation('correspondence', 'corr:faults', 'failing allocations %s: code and model disagree at op %d' % (bin(mask), i), script=script, expected=mb, observed=cb, suite='faults', variant='asan'))
+        if mask == 5:
+            st['samples'].append([l for l in script if not l.startswith('free')][:14])
+    st['hist']['fault schedules'] = total
     st['wall'] = time.time() - t0
 
 
